@@ -227,6 +227,16 @@ def main(p):
                             fail(cell, variant, 'docstring-snippet-differs', f'docstring has {len(emb.splitlines())} lines, file has {len(snippet.splitlines())} between the tags')
             if rest_only and cell['form'] in ('client-stream', 'bidi'):
                 continue      # the REST transport does not support client streaming: nothing could accept the call
+            result_type = cm.get('resultType')
+            client_cls, client_meth = C, (getattr(C, mname, None) if C is not None and mname else None)
+            # the metadata's result type against what the generated client actually returns (an empty request is accepted by the server)
+            if client_meth is not None:
+                try:
+                    verdict = check_result_type(lib, tp, cell, client_cls, mname, p.cls(cell['req'])(), result_type)
+                except BaseException as e:
+                    verdict = f'client call failed: {type(e).__name__}: {str(e)[:200]}'
+                if verdict:
+                    fail(cell, variant, 'metadata-result-type', verdict)
             # run it, unmodified
             del CHANNELS[:]
             seam.log.clear()
@@ -290,6 +300,66 @@ def main(p):
     if extra and len(a['cells']) > 50:
         out['failures'].append(dict(cell='-', variant='-', kind='unexpected-snippets', detail=str(sorted(extra))[:300]))
     return out
+
+
+def _resolve(dotted):
+    mod, _, attr = dotted.rpartition('.')
+    try:
+        return getattr(importlib.import_module(mod), attr)
+    except BaseException:
+        return None
+
+
+def check_result_type(lib, tp, cell, C, mname, req_msg, result_type):
+    """-> None when the declared resultType describes the value the client method returns, else a description."""
+    G = lib.type_of(cell['req'], tp)
+    if G is not None:
+        greq = G.deserialize(req_msg.SerializeToString())
+    else:
+        greq = probelib._default_pool_instance(req_msg)
+    streaming_in = cell['form'] in ('client-stream', 'bidi')
+    box = {}
+
+    async def acall():
+        client = C()
+        ret = getattr(client, mname)(**(dict(requests=iter([greq])) if streaming_in else dict(request=greq)))
+        if inspect.isawaitable(ret):
+            ret = await ret
+        if hasattr(ret, '__aiter__') and not hasattr(ret, 'pages') and not hasattr(ret, 'result'):
+            box['items'] = [x async for x in ret]
+        elif inspect.isawaitable(ret):
+            ret = await ret
+        box['ret'] = ret
+
+    if inspect.iscoroutinefunction(getattr(C, mname)) or C.__name__.endswith('AsyncClient'):
+        asyncio.run(acall())
+    else:
+        client = C()
+        ret = getattr(client, mname)(**(dict(requests=iter([greq])) if streaming_in else dict(request=greq)))
+        if hasattr(ret, '__iter__') and not hasattr(ret, 'pages') and not hasattr(ret, 'result') and not hasattr(type(ret), 'pb') \
+                and not hasattr(ret, 'DESCRIPTOR'):
+            box['items'] = list(ret)
+        box['ret'] = ret
+    ret = box['ret']
+    if not result_type:
+        return None if ret is None else f'no resultType declared, the client returned {type(ret).__name__}'
+    m = re.fullmatch(r'(?:Async)?Iterable\[(.+)\]', result_type)
+    if m:
+        cls = _resolve(m.group(1))
+        if 'items' not in box:
+            return f'resultType {result_type} but the client returned {type(ret).__module__}.{type(ret).__name__}, not a stream'
+        if cls is None:
+            return f'resultType {result_type} does not resolve to a class'
+        bad = [type(x).__name__ for x in box['items'] if not isinstance(x, cls)]
+        return f'stream items are {bad[:2]}, declared {result_type}' if bad else None
+    cls = _resolve(result_type)
+    if cls is None:
+        return f'resultType {result_type} does not resolve to a class'
+    if 'items' in box:
+        return f'resultType {result_type} but the client returned a stream'
+    if not isinstance(ret, cls):
+        return f'resultType {result_type} but the client returned {type(ret).__module__}.{type(ret).__name__}'
+    return None
 
 
 if __name__ == '__main__':
